@@ -326,3 +326,42 @@ Section VEnc.
           obind (read_scalars (snd (snd so)) len (N.to_nat num) (fst (snd so))) (fun opens =>
           Val {| vp_seed := seed; vp_slots := fst so; vp_opens := opens; vp_sp := N.to_nat sp |}))))))).
 End VEnc.
+
+(** ** Packaging: one record for everything the model is parametrised by, and the entry points applied to it
+    (the property statements of Props/C09.v and Props/C10.v quantify over all such worlds). *)
+Record venc_world := {
+  w_G : Type;
+  w_O : group_ops w_G;
+  w_q : Z;
+  w_psize : nat;
+  w_repr : Z -> list N;
+  w_from_repr : list N -> option Z;
+  w_sha256 : list N -> list N;
+  w_PK : Type;
+  w_SK : Type;
+  w_pk_n : w_PK -> Z;
+  w_sk_n : w_SK -> Z;
+  w_rsa_enc : list N -> w_PK -> list N -> option (list N);
+  w_rsa_dec : w_SK -> list N -> option (list N);
+}.
+
+Definition W_gen (W : venc_world) : w_G W := g_gen (w_O W).
+Definition W_smul (W : venc_world) (k : Z) (P : w_G W) : w_G W := g_smul (w_O W) k P.
+Definition W_label_int (W : venc_world) (label : list N) : Z := label_int (w_sha256 W) label.
+Definition W_enc_label (W : venc_world) (m label : list N) (pk : w_PK W) (seed : list N) : outcome (list N) :=
+  rsa_encrypt_with_label (w_sha256 W) (w_PK W) (w_pk_n W) (w_rsa_enc W) m label pk seed.
+Definition W_dec_scalar (W : venc_world) (sk : w_SK W) (label c : list N) : outcome (option Z) :=
+  dec_scalar (w_from_repr W) (w_SK W) (w_sk_n W) (w_rsa_dec W) sk (label_inv (w_sha256 W) (w_SK W) (w_sk_n W) label sk) c.
+Definition W_challenge (W : venc_world) (Q : w_G W) (label : list N) (slots : list slot) : list N :=
+  challenge (w_G W) (w_O W) (w_sha256 W) Q label slots.
+Definition W_encrypt (W : venc_world) (x : Z) (pk : w_PK W) (label : list N) (sp : option nat)
+           (seed : list N) (tape : nat -> Z) : outcome vproof :=
+  encrypt_with_proof (w_G W) (w_O W) (w_q W) (w_repr W) (w_sha256 W) (w_PK W) (w_pk_n W) (w_rsa_enc W)
+                     x pk label sp seed tape.
+Definition W_verify (W : venc_world) (p : vproof) (Q : w_G W) (pk : w_PK W) (label : list N) : outcome unit :=
+  verify (w_G W) (w_O W) (w_repr W) (w_sha256 W) (w_PK W) (w_pk_n W) (w_rsa_enc W) p Q pk label.
+Definition W_decrypt (W : venc_world) (p : vproof) (Q : w_G W) (sk : w_SK W) (label : list N) : outcome Z :=
+  decrypt (w_G W) (w_O W) (w_q W) (w_from_repr W) (w_sha256 W) (w_SK W) (w_sk_n W) (w_rsa_dec W) p Q sk label.
+Definition W_to_bytes (W : venc_world) (p : vproof) : outcome (list N) := to_bytes (w_repr W) p.
+Definition W_from_bytes (W : venc_world) (d : list N) : outcome vproof :=
+  from_bytes (w_psize W) (w_from_repr W) d.
